@@ -321,8 +321,39 @@ def r204(ctx) -> None:
     R.check(ok, tl, tl.node, 'FileLock._try_lock: FileExistsError -> False',
             'an existing lock file is not reported as "not acquired"')
     wl = fl.own_method('write_lock')
+
+    def got_edges(cfg_):
+        """Successors on the true edge of a `self._try_lock()` test."""
+        ts = [t for t in cfg_.nodes if t.kind == 'test' and any(
+            pol and a.endswith('._try_lock()') and a.count('(') == 1
+            for a, pol in guard_atoms(t.stmt.test))]
+        return [m for t in ts for m, lab in t.succ if lab == 't']
+    # wrappers: a method of FileLock ACQUIRES when every normal return is
+    # reached only through a successful _try_lock() (all other exits raise)
+    acquirers = set()
+    for fs in fl.methods.values():
+        for g in fs:
+            if g is wl or g.name in ('_try_lock', 'read_lock'):
+                continue
+            gcfg = cfg_of(g)
+            got = got_edges(gcfg)
+            rets = gcfg.find(lambda n: isinstance(n.stmt, ast.Return))
+            falls = gcfg.exit in gcfg.reach([gcfg.entry], avoid=rets,
+                                            labels=NORMAL,
+                                            first_labels=NORMAL)
+            if got and not any(isinstance(x, (ast.Yield, ast.YieldFrom))
+                               for x in walk_local(g.node)) and all(
+                    gcfg.dominated_by(r, got, labels=ALL) for r in rets) \
+                    and (rets or falls) and not (falls and not
+                                                 gcfg.dominated_by(
+                                                     gcfg.exit, got,
+                                                     labels=NORMAL)):
+                acquirers.add(g.name)
     # _try_lock result must control the yield
     wcfg = cfg_of(wl)
+    acq_after = [m for n in wcfg.nodes for c in n.calls()
+                 if call_name(c) in acquirers
+                 for m, lab in n.succ if lab in NORMAL]
     ys = wcfg.find(lambda n: any(isinstance(x, (ast.Yield, ast.YieldFrom))
                                  for x in n.walk()))
     bad = []
@@ -333,7 +364,8 @@ def r204(ctx) -> None:
                  and any(pol and a.endswith('._try_lock()')
                          and a.count('(') == 1
                          for a, pol in guard_atoms(t.stmt.test))
-                 for t in wcfg.nodes)
+                 for t in wcfg.nodes) or (
+            bool(acq_after) and wcfg.dominated_by(y, acq_after, labels=ALL))
         if not ok:
             bad.append(y.lineno)
     R.check(bool(ys) and not bad, wl, wl.node,
@@ -347,7 +379,8 @@ def r204(ctx) -> None:
     tl_tests = [t for t in wcfg.nodes if t.kind == 'test' and any(
         pol and a.endswith('._try_lock()') and a.count('(') == 1
         for a, pol in guard_atoms(t.stmt.test))]
-    got = [m for t in tl_tests for m, lab in t.succ if lab == 't']
+    got = [m for t in tl_tests for m, lab in t.succ if lab == 't'] + \
+        acq_after
     uns = wcfg.find(lambda n: any(call_name(c) == '_unlock'
                                   for c in n.calls()))
     badu = sorted({u.lineno for u in uns
